@@ -233,6 +233,11 @@ func (r *Recorder) Finish(w *World, info propInfo, tier string, seed int, outDir
 		}
 	}
 
+	if os.Getenv("PSACHECK_ALL") != "" {
+		for _, o := range r.Obs {
+			fmt.Printf("  %-9s %s: %s — %s%s\n", o.Verdict, o.Pos, clip(o.Key(), 140), clip(o.How, 160), clip(o.Detail, 160))
+		}
+	}
 	reportPath := filepath.Join(outDir, r.Property+".report.json")
 	os.Remove(reportPath)
 	if len(bad) > 0 {
